@@ -159,6 +159,7 @@ def run(ctx):
             best[sig] = (rank, what, opline)
 
     node_line = None
+    digests = {}
     for opl, line in zip(all_ops, all_impl):
         if not opl:
             continue
@@ -208,6 +209,12 @@ def run(ctx):
                 elif h != reqs[0][1]:   # a redirect may change path / user-info on the SAME origin, never the origin
                     violation("redirect-followed:to-other-host", f"redirect followed to another origin https://{h.decode('latin1')} while resolving did:web:{idb.decode('latin1')}", opl)
                     break
+            if out.startswith("ok:") and reqs:
+                last = (op.get("resps") or [{}])[min(len(reqs), len(op.get("resps") or [1])) - 1]
+                if not 200 <= last.get("st", 0) < 300:
+                    violation("document-accepted-from-non-2xx", f"document accepted from a response with status {last.get('st')}", opl)
+                if last.get("mt") is None or bytes.fromhex(last["mt"]) not in (b"application/did+ld+json", b"application/did+json", b"application/json"):
+                    violation("document-accepted-with-other-content-type", f"document accepted with Content-Type {bytes.fromhex(last.get('ct', ''))!r}", opl)
             if out.startswith("ok:") and bytes.fromhex(out[3:]) != b"did:web:" + idb:
                 violation("document-id-differs", f"returned document id {bytes.fromhex(out[3:])!r} for did:web:{idb!r}", opl)
         elif kind == "resolve":
@@ -219,6 +226,14 @@ def run(ctx):
             outcomes["resolve " + ":".join(out.split(":")[:2] if out.startswith("err") else out.split(":")[:1])] += 1
             meth = bytes.fromhex(op.get("m", ""))
             didb = b"did:" + meth + b":" + bytes.fromhex(op.get("id", ""))
+            if meth == b"x509" and n:
+                violation("network-for-x509", f"{n} outbound request(s) while resolving {didb!r}", node_line + "\n" + opl)
+            if meth in (b"jwk", b"key") and out.startswith("ok"):
+                if op.get("keybound") is False:
+                    violation("key-not-bound-to-identifier:" + meth.decode(), f"the document returned for {didb[:60]!r} does not carry the key the identifier encodes", node_line + "\n" + opl)
+                prev = digests.setdefault(didb, op.get("digest"))
+                if prev != op.get("digest"):
+                    violation("not-a-function-of-the-identifier", f"two resolutions of {didb[:60]!r} (different nodes / times) gave different documents", node_line + "\n" + opl)
             if meth in (b"jwk", b"key") and n:
                 violation("network-for-" + meth.decode(), f"{n} outbound request(s) while resolving {didb!r}", node_line + "\n" + opl)
             if op.get("fault") and meth == b"web" and (n or out.startswith("ok")):
